@@ -223,7 +223,37 @@ func checkC12(cx *Ctx, r *Report) {
 				if g == nil || !strings.HasSuffix(w.FuncKey(g), "makeAttributeQueryResponse") && !strings.HasSuffix(w.FuncKey(throughDelegation(g)), "makeAttributeQueryResponse") {
 					continue
 				}
+				// candidates: a helper whose result is handed in as the list, and a helper the response builder (or one of
+				// its private pieces) applies to the list it was given (`queried = sanitize(queried)`)
+				var listArgs []ssa.Value
 				for _, a := range c.Common().Args {
+					listArgs = append(listArgs, a)
+				}
+				for _, piece := range cx.privateHelpers(throughDelegation(g)) {
+					for _, pc := range callsIn(piece) {
+						pcall, isPC := pc.(*ssa.Call)
+						if !isPC || calleeOf(pcall) == nil || calleeOf(pcall).Blocks == nil {
+							continue
+						}
+						takes := false
+						for _, pa := range pcall.Call.Args {
+							if psl, isPSl := pa.Type().Underlying().(*types.Slice); isPSl && typeKey(psl.Elem()) == "saml.AttributeType" {
+								takes = true
+							}
+						}
+						// (what comes back must be a list of requested attributes again - values, as decoded -, not the
+						// selection from the user's attributes, which are pointers)
+						if rsl, isRSl := pcall.Type().Underlying().(*types.Slice); !isRSl {
+							takes = false
+						} else if _, isPtr := rsl.Elem().Underlying().(*types.Pointer); isPtr {
+							takes = false
+						}
+						if takes {
+							listArgs = append(listArgs, pcall)
+						}
+					}
+				}
+				for _, a := range listArgs {
 					sl, isSl := a.Type().Underlying().(*types.Slice)
 					if !isSl || typeKey(sl.Elem()) != "saml.AttributeType" {
 						continue
